@@ -38,6 +38,7 @@ import (
 	"fmt"
 	"net"
 	"strings"
+	"sync/atomic"
 	"time"
 
 	ouroboros "github.com/blinklabs-io/gouroboros"
@@ -333,6 +334,7 @@ func runC15(op string) string {
 	}
 	// the peer's writes must not block the harness when the library stops reading (flood)
 	scriptDone := make(chan struct{})
+	var floodSent atomic.Int64
 	go func() {
 		defer close(scriptDone)
 		switch script {
@@ -357,6 +359,7 @@ func runC15(op string) string {
 				if peer.send(fromPeer, last) != nil {
 					return
 				}
+				floodSent.Add(1)
 			}
 		case "mid":
 			if !stopCall {
@@ -376,9 +379,18 @@ func runC15(op string) string {
 	}()
 	if stopCall {
 		// give the script a moment to arrive (flood: until the peer's writes stall), then Stop
-		select {
-		case <-scriptDone:
-		case <-time.After(300 * time.Millisecond):
+		lastN, idle := int64(-1), 0
+		for idle < 8 {
+			select {
+			case <-scriptDone:
+				idle = 8
+			case <-time.After(25 * time.Millisecond):
+				if n := floodSent.Load(); n == lastN {
+					idle++
+				} else {
+					lastN, idle = n, 0
+				}
+			}
 		}
 		go func() {
 			if call == "bf.getstop" {
@@ -387,6 +399,23 @@ func runC15(op string) string {
 				resCh <- conn.ChainSync().Client.Stop()
 			}
 		}()
+	}
+	if script == "flood" && !stopCall {
+		// the surplus messages must have arrived (or the library must have stopped reading them)
+		// before the peer disconnects: wait until the writer is done or makes no more progress
+		lastN, idle := int64(-1), 0
+		for idle < 8 {
+			select {
+			case <-scriptDone:
+				idle = 8
+			case <-time.After(25 * time.Millisecond):
+				if n := floodSent.Load(); n == lastN {
+					idle++
+				} else {
+					lastN, idle = n, 0
+				}
+			}
+		}
 	}
 	var ret *error
 	if script != "close" {
